@@ -18,5 +18,11 @@ Variant(cm, ca) == Join([k \in DOMAIN ts |-> StripColons(ts[k][2]) \o "(" \o ts[
 Safe == Len(ts) >= 1 => TripleSafe(ts)
 RoundTrip == Len(ts) >= 1 => \A ind \in BOOLEAN : LET r == ParseTriples(FmtTriples(ts, ind)) IN r.ok /\ r.ts = ts
 VariantsAgree == Len(ts) >= 1 => \A cm \in Commas, ca \in Carets : LET r == ParseTriples(Variant(cm, ca)) IN r.ok /\ r.ts = ts
+\* the spacing of every conjunction sign chosen independently (a glued sign followed by a spaced one, ...)
+RECURSIVE MixedJoin(_, _, _)
+MixedJoin(parts, cas, k) == IF k > Len(parts) THEN "" ELSE IF k = Len(parts) THEN parts[k] ELSE parts[k] \o cas[k] \o MixedJoin(parts, cas, k + 1)
+MixedAgree == Len(ts) >= 2 => \A cas \in [1..(Len(ts) - 1) -> Carets] :
+    LET parts == [k \in DOMAIN ts |-> StripColons(ts[k][2]) \o "(" \o ts[k][1] \o ", " \o ts[k][3] \o ")"]
+        r == ParseTriples(MixedJoin(parts, cas, 1)) IN r.ok /\ r.ts = ts
 RolesColon == Len(ts) >= 1 => LET r == ParseTriples(FmtTriples(ts, TRUE)) IN \A k \in DOMAIN r.ts : StartsWith(r.ts[k][2], ":")
 =============================================================================
